@@ -71,6 +71,7 @@ class ChannelItem(EFLRItem, DimensionedItem):
         # names of the characteristics ('cast_dtype', 'dimension', 'element_limit') which were not specified by the user,
         # but determined from the data at the last write; they are determined anew at every write
         self._determined_from_data: set[str] = set()
+        self._n_assignments_when_determined: dict[str, int] = {}  # to recognise later assignments made by the user
 
         self.long_name = EFLROrTextAttribute('long_name', object_class=LongNameSet)
         self.properties = PropertiesAttribute('properties')
@@ -135,8 +136,10 @@ class ChannelItem(EFLRItem, DimensionedItem):
         if 'cast_dtype' in self._determined_from_data:
             self._set_cast_dtype(None)
         for attr_name in ('dimension', 'element_limit'):
-            if attr_name in self._determined_from_data:
-                getattr(self, attr_name)._value = None
+            attr = getattr(self, attr_name)
+            if attr_name in self._determined_from_data \
+                    and attr.n_value_assignments == self._n_assignments_when_determined.get(attr_name):
+                attr._value = None  # (not if the user has assigned another value in the meantime)
         self._determined_from_data.clear()
 
         sub_data = data[self.name]
@@ -155,6 +158,7 @@ class ChannelItem(EFLRItem, DimensionedItem):
             logger.debug(f"Setting dimension of {self} to {dim}")
             self.dimension.value = dim
             self._determined_from_data.add('dimension')
+            self._n_assignments_when_determined['dimension'] = self.dimension.n_value_assignments
 
         if self.element_limit.value != dim:
             if self.element_limit.value:  # was specified and is not exactly equal to dim
@@ -167,6 +171,7 @@ class ChannelItem(EFLRItem, DimensionedItem):
                 logger.debug(f"Setting element limit of {self} to {dim}")
                 self._determined_from_data.add('element_limit')
             self.element_limit.value = dim
+            self._n_assignments_when_determined['element_limit'] = self.element_limit.n_value_assignments
 
     @staticmethod
     def _compare_element_limit_vs_dimension(el: list[int], dim: list[int]) -> bool:
